@@ -149,6 +149,14 @@ Theorem C03_get_request_bound : forall nodes_reply self selfs_marked selfs_all k
    <= N.to_nat GET_MAX_ITERATIONS * N.to_nat GET_ALPHA)%nat.
 Proof. exact get_request_bound. Qed.
 
+(* ... and, when the initial candidates are distinct and none is a local id, no peer is asked
+   twice and the local node (under any of its ids) is never sent a request *)
+Theorem C03_get_no_self_no_dup : forall nodes_reply self selfs_marked selfs_all key ss init,
+  NoDup init -> (forall p, In p init -> ~ In p selfs_all) ->
+  let reqs := snd (fst (get nodes_reply self selfs_marked selfs_all key ss init)) in
+  NoDup reqs /\ forall p, In p reqs -> ~ In p selfs_all.
+Proof. exact get_requests_wf. Qed.
+
 (* 6. over every history from the empty stores, whatever a node holds under key k are the
       bytes of an earlier put / remote PUT of exactly (k, v) (and within the limit) *)
 Theorem C03_history_sound : forall ops p k v,
